@@ -245,6 +245,63 @@ let handlers : (string * (string list -> string -> verdict)) list = [
       let m = Access.expand (chars_of_string (unhex rid)) (chars_of_string (unhex cid)) in
       { model = hex (string_of_chars m); spec_ok = None; nontrivial = (unhex impl <> unhex rid) }
     | _ -> failwith "args");
+  "render", (fun args impl -> match args with
+    | [enc; nn; spec] ->
+      let n = int_of_string nn in
+      let nodes = Array.of_list (S.split_on_char '|' spec) in
+      let value_of (v : string) : Render.hval =
+        let rest = S.sub v 1 (S.length v - 1) in
+        match S.get v 0 with
+        | 'r' -> Render.HRef (nat_of_int (int_of_string rest))
+        | 's' -> Render.HSoft (chars_of_string (unhex rest))
+        | 'd' -> Render.HData (chars_of_string (unhex rest))
+        | _ -> Render.HPrim (chars_of_string (unhex rest)) in
+      let parsed = Array.map (fun nd -> match S.split_on_char ';' nd with
+        | [h; "E"; e] -> (chars_of_string (unhex h), Render.HErr (chars_of_string (unhex e)))
+        | [h; "M"; kvs] -> (chars_of_string (unhex h),
+            Render.HModel (L.map (fun kv -> match S.index_opt kv '=' with
+              | Some i -> (chars_of_string (unhex (S.sub kv 0 i)), value_of (S.sub kv (i+1) (S.length kv - i - 1)))
+              | None -> failwith "kv") (split_on ',' kvs)))
+        | [h; "C"; vs] -> (chars_of_string (unhex h), Render.HColl (L.map value_of (split_on ',' vs)))
+        | _ -> failwith ("node " ^ nd)) nodes in
+      let g = { Render.res = (fun r -> let i = int_of_nat r in if i < Array.length parsed then snd parsed.(i) else Render.HErr []);
+                Render.href = (fun r -> let i = int_of_nat r in if i < Array.length parsed then fst parsed.(i) else []) } in
+      let m = string_of_chars (if enc = "json" then Render.encode_get g (nat_of_int n) Datatypes.O
+                               else Render.encode_get_flat g (nat_of_int n) Datatypes.O) in
+      (* compare structurally (member order of objects is the Go map iteration order); the implementation's body must be
+         well-formed JSON without duplicate members *)
+      let ok, wf = (try
+          let ji = Jsonc.parse (unhex impl) in
+          let jm = Jsonc.parse m in
+          (Jsonc.canon ji = Jsonc.canon jm, not (Jsonc.dup_keys ji))
+        with _ -> (false, false)) in
+      { model = (if ok then impl else hex m); spec_ok = Some wf; nontrivial = n > 1 }
+    | _ -> failwith "args");
+  "adapter", (fun args impl -> match args with
+    | [b] ->
+      let open Adapter in
+      let acts = (match b with
+        | "reply" -> Some [Send; MsgReply] | "dup" -> Some [Send; MsgReply; MsgReply] | "503" -> Some [Send; Msg503]
+        | "silent" -> Some [Send; TqExpire; TqRun] | "pre-reply" -> Some [Send; MsgPre; MsgReply]
+        | "pre-silent" -> Some [Send; MsgPre; TimerExpire; TimerRun] | "late" -> Some [Send; TqExpire; TqRun; MsgReply]
+        | "pre-pre-reply" -> Some [Send; MsgPre; MsgPre; MsgReply]
+        | "reply-after-pre-timeout" -> Some [Send; MsgPre; TimerExpire; TimerRun; MsgReply]
+        | _ -> None) in
+      let kinds = (match acts with
+        | Some l -> S.concat "," (L.map (fun o -> match o with Reply -> "reply" | NoResponders -> "noresponders" | Timeout -> "timeout") (run l).coq_done)
+        | None -> "toolong") in
+      (* spec on the implementation's own observation: exactly one completion, no timeout before its deadline *)
+      let spec = (match S.split_on_char '|' impl with
+        | [ks; early] -> L.length (split_on ',' ks) = 1 && early = "false"
+        | _ -> false) in
+      { model = kinds ^ "|false"; spec_ok = Some spec; nontrivial = true }
+    | _ -> failwith "args");
+  "adapter_events", (fun args impl -> match args with
+    | [published] ->
+      (* every published event delivered, in order, nothing after Unsubscribe, over-long namespace refused *)
+      { model = published ^ "|true|false|true"; spec_ok = None; nontrivial = true }
+    | _ -> failwith "args");
+  "adapter_closed", (fun args impl -> { model = "true"; spec_ok = None; nontrivial = true });
 ]
 
 let pure_main () =
